@@ -59,6 +59,8 @@ pub struct RefOut {
     pub unselected: Vec<(usize, usize)>,
     /// (file, line) of every primitive line that is assembled at top level (not inside macro bodies)
     pub selected: Vec<(usize, usize)>,
+    /// (file, line) of the conditional directive lines (.if/.elif/.else/.endif) of chains met on the assembling path
+    pub cond_lines: Vec<(usize, usize)>,
     /// where each emitting item landed: (file, line, seg, address, bytes)
     pub placed: Vec<(usize, usize, Seg, u32, usize)>,
     pub flash_words: u32,
@@ -124,6 +126,7 @@ struct Flat<'a> {
     items: Vec<Placed>,
     unselected: Vec<(usize, usize)>,
     selected: Vec<(usize, usize)>,
+    cond_lines: Vec<(usize, usize)>,
 }
 
 fn fail<T>(kind: FailKind, file: usize, line: usize) -> Result<T, RefErr> {
@@ -202,6 +205,9 @@ impl<'a> Flat<'a> {
                     let mut taken = false;
                     for a in arms {
                         let cond_line = *line;
+                        if top {
+                            self.cond_lines.push((file, cond_line));
+                        }
                         *line += 1;
                         let body_first = *line;
                         let body_len = count_lines(&a.body);
@@ -222,6 +228,9 @@ impl<'a> Flat<'a> {
                         *line = body_first + body_len;
                     }
                     if let Some(b) = else_body {
+                        if top {
+                            self.cond_lines.push((file, *line));
+                        }
                         *line += 1;
                         let body_first = *line;
                         if !taken {
@@ -233,6 +242,9 @@ impl<'a> Flat<'a> {
                             self.mark_unselected(b, file, body_first);
                         }
                         *line = body_first + count_lines(b);
+                    }
+                    if top {
+                        self.cond_lines.push((file, *line));
                     }
                     *line += 1; // .endif
                     continue;
@@ -546,7 +558,7 @@ fn data_len(width: u8, ops: &[DataOp]) -> usize {
 
 /// Assemble a program given as a tree of files (files[0] is the main file).
 pub fn assemble(files: &[SourceFile]) -> RefResult {
-    let mut fl = Flat { files, equs: HashMap::new(), defines: HashSet::new(), macros: HashMap::new(), device: None, messages: vec![], items: vec![], unselected: vec![], selected: vec![] };
+    let mut fl = Flat { files, equs: HashMap::new(), defines: HashSet::new(), macros: HashMap::new(), device: None, messages: vec![], items: vec![], unselected: vec![], selected: vec![], cond_lines: vec![] };
     let mut line = 1;
     fl.walk(&files[0].nodes, 0, &mut line, true)?;
 
@@ -709,6 +721,7 @@ pub fn assemble(files: &[SourceFile]) -> RefResult {
     let mut out = RefOut { device: fl.device.clone(), messages: fl.messages.clone(), labels: labels.clone(), ..Default::default() };
     out.unselected = fl.unselected.clone();
     out.selected = fl.selected.clone();
+    out.cond_lines = fl.cond_lines.clone();
     let mut defs: HashMap<String, u8> = HashMap::new();
     let mut set_names: HashSet<String> = HashSet::new();
     let mut seg = Seg::Code;
